@@ -1,7 +1,13 @@
-//! C10 — (stub, under construction)
+//! C10 — OpenType, collection and WOFF containers yield exactly the stored tables.
 
 use super::Prop;
 use crate::rt::*;
+use crate::sfnt::woff::{build_woff, WoffTable};
+use crate::sfnt::{self, tag};
+use allsorts::binary::read::ReadScope;
+use allsorts::font_data::FontData;
+use allsorts::tables::{FontTableProvider, OpenTypeFont, SfntVersion};
+use allsorts::woff::WoffFont;
 
 pub struct C10 {}
 
@@ -11,8 +17,286 @@ impl C10 {
     }
 }
 
-impl Prop for C10 {
-    fn case(&mut self, cx: &mut Ctx, _rng: &mut Rng) {
-        cx.inconclusive("not-implemented");
+fn gen_tag(rng: &mut Rng, used: &mut Vec<u32>) -> u32 {
+    loop {
+        let t = match rng.below(6) {
+            0 => {
+                let names: [&str; 12] = ["head", "glyf", "loca", "cmap", "hmtx", "CFF ", "OS/2", "name", "GSUB", "post", "maxp", "hhea"];
+                tag(names[rng.below(12)])
+            }
+            1 => rng.u32(),
+            2 => u32::from_be_bytes([b' ' + rng.below(95) as u8, b' ' + rng.below(95) as u8, b' ' + rng.below(95) as u8, b' ' + rng.below(95) as u8]),
+            3 => *rng.pick(&[0u32, 1, 0xFFFF_FFFF, 0x8000_0000, 0x7FFF_FFFF]),
+            _ => u32::from_be_bytes([b'a' + rng.below(26) as u8, b'a' + rng.below(26) as u8, b'a' + rng.below(26) as u8, b'0' + rng.below(10) as u8]),
+        };
+        if !used.contains(&t) {
+            used.push(t);
+            return t;
+        }
     }
+}
+
+fn gen_data(rng: &mut Rng) -> Vec<u8> {
+    let len = match rng.below(10) {
+        0 => 0,
+        1 => 1,
+        2 => 1 + rng.below(7),
+        3 => 65_536 + rng.below(10_000),
+        _ => rng.below(600),
+    };
+    match rng.below(4) {
+        0 => vec![rng.u8(); len],                          // highly compressible
+        1 => (0..len).map(|i| (i % 7) as u8).collect(),    // compressible
+        _ => rng.bytes(len),                               // incompressible
+    }
+}
+
+struct Expect {
+    version: u32,
+    tables: Vec<(u32, Vec<u8>)>,
+}
+
+fn check_provider<P: FontTableProvider + SfntVersion>(cx: &mut Ctx, rng: &mut Rng, p: &P, exp: &Expect, via: &str, witness: &dyn Fn() -> J) -> bool {
+    let fail = |cx: &mut Ctx, rule: &str, what: String| {
+        cx.violation(rule, &format!("{}:{}", via, rule), J::obj(vec![("what", J::s(what)), ("container", witness())]));
+    };
+    if p.sfnt_version() != exp.version {
+        fail(cx, "flavour", format!("sfnt_version {:#x} expected {:#x}", p.sfnt_version(), exp.version));
+        return false;
+    }
+    for (t, d) in &exp.tables {
+        if !p.has_table(*t) {
+            fail(cx, "has-table", format!("has_table({}) = false", sfnt::tag_str(*t)));
+            return false;
+        }
+        match p.table_data(*t) {
+            Ok(Some(got)) => {
+                if got.as_ref() != d.as_slice() {
+                    let pos = got.iter().zip(d.iter()).position(|(a, b)| a != b).unwrap_or(got.len().min(d.len()));
+                    fail(cx, "table-bytes", format!("table {} ({:#x}): {} bytes returned, {} stored, first difference at {}", sfnt::tag_str(*t), t, got.len(), d.len(), pos));
+                    return false;
+                }
+            }
+            other => {
+                fail(cx, "table-missing", format!("table_data({}) = {:?}", sfnt::tag_str(*t), other.map(|o| o.map(|c| c.len()))));
+                return false;
+            }
+        }
+        match p.read_table_data(*t) {
+            Ok(got) if got.as_ref() == d.as_slice() => {}
+            _ => {
+                fail(cx, "table-bytes", format!("read_table_data({}) differs", sfnt::tag_str(*t)));
+                return false;
+            }
+        }
+    }
+    // tags as a multiset
+    match p.table_tags() {
+        Some(mut tags) => {
+            let mut want: Vec<u32> = exp.tables.iter().map(|t| t.0).collect();
+            tags.sort();
+            want.sort();
+            if tags != want {
+                fail(cx, "table-tags", format!("table_tags() = {:x?} expected {:x?}", tags, want));
+                return false;
+            }
+        }
+        None => {
+            fail(cx, "table-tags", "table_tags() = None".into());
+            return false;
+        }
+    }
+    // absent tags
+    for _ in 0..4 {
+        let t = match rng.below(3) {
+            0 => rng.u32(),
+            1 => exp.tables.first().map_or(7, |x| x.0 ^ 1),
+            _ => exp.tables.last().map_or(9, |x| x.0.wrapping_add(1)),
+        };
+        if exp.tables.iter().any(|x| x.0 == t) {
+            continue;
+        }
+        if p.has_table(t) || !matches!(p.table_data(t), Ok(None)) || p.read_table_data(t).is_ok() {
+            fail(cx, "absent-table", format!("absent tag {:#x} reported as present", t));
+            return false;
+        }
+    }
+    true
+}
+
+impl Prop for C10 {
+    fn case(&mut self, cx: &mut Ctx, rng: &mut Rng) {
+        let version = *rng.pick(&[0x0001_0000u32, 0x4F54_544F, 0x7472_7565]);
+        let kind = rng.below(3);
+        let ntables = if rng.chance(1, 10) { 0 } else { 1 + rng.small(39) };
+        let mut used = Vec::new();
+        let tables: Vec<(u32, Vec<u8>)> = (0..ntables).map(|_| (gen_tag(rng, &mut used), gen_data(rng))).collect();
+        match kind {
+            0 => {
+                // bare sfnt, random physical order
+                let f = sfnt::Font { version, tables: tables.clone() };
+                let mut phys: Vec<usize> = (0..ntables).collect();
+                rng.shuffle(&mut phys);
+                let sort_dir = !rng.chance(1, 5);
+                let bytes = f.build_opts(&phys, sort_dir, false);
+                let exp = Expect { version, tables };
+                let wit = || J::obj(vec![("kind", J::s("sfnt")), ("bytes_head", J::hex(&bytes[..bytes.len().min(12 + 16 * 8)])), ("len", J::U(bytes.len() as u64))]);
+                let fd = match ReadScope::new(&bytes).read::<FontData<'_>>() {
+                    Ok(f) => f,
+                    Err(e) => {
+                        cx.violation("rejected", "sfnt:rejected", J::obj(vec![("error", J::s(format!("{:?}", e))), ("container", wit())]));
+                        return;
+                    }
+                };
+                let mut ok = true;
+                match fd.table_provider(0) {
+                    Ok(p) => ok &= check_provider(cx, rng, &p, &exp, "sfnt/FontData", &wit),
+                    Err(e) => {
+                        cx.violation("rejected", "sfnt:provider-rejected", J::s(format!("{:?}", e)));
+                        return;
+                    }
+                }
+                if let Ok(otf) = ReadScope::new(&bytes).read::<OpenTypeFont<'_>>() {
+                    // a single font ignores the index by design
+                    for idx in [0usize, 1, 7] {
+                        if let Ok(p) = otf.table_provider(idx) {
+                            ok &= check_provider(cx, rng, &p, &exp, "sfnt/OpenTypeFont", &wit);
+                        }
+                    }
+                }
+                if ok {
+                    cx.class("sfnt");
+                    cx.class(if sort_dir { "dir:sorted" } else { "dir:unsorted" });
+                }
+                if ntables > 0 {
+                    cx.nontrivial(hash_bytes(&bytes));
+                }
+            }
+            1 => {
+                // TTC with shared tables
+                let nmembers = 1 + rng.below(5);
+                let pool = tables.clone();
+                let mut members: Vec<(u32, Vec<usize>)> = Vec::new();
+                for _ in 0..nmembers {
+                    let v = *rng.pick(&[0x0001_0000u32, 0x4F54_544F, 0x7472_7565]);
+                    // a member uses each tag at most once: pool tags are unique already
+                    let idx: Vec<usize> = (0..pool.len()).filter(|_| rng.chance(2, 3)).collect();
+                    members.push((v, idx));
+                }
+                let ttc_version = if rng.bool() { 0x0001_0000 } else { 0x0002_0000 };
+                let bytes = sfnt::build_ttc(ttc_version, &pool, &members);
+                let wit = || J::obj(vec![("kind", J::s("ttc")), ("members", J::U(nmembers as u64)), ("bytes_head", J::hex(&bytes[..bytes.len().min(200)])), ("len", J::U(bytes.len() as u64))]);
+                let fd = match ReadScope::new(&bytes).read::<FontData<'_>>() {
+                    Ok(f) => f,
+                    Err(e) => {
+                        cx.violation("rejected", "ttc:rejected", J::obj(vec![("error", J::s(format!("{:?}", e))), ("container", wit())]));
+                        return;
+                    }
+                };
+                let mut ok = true;
+                for (k, (v, idx)) in members.iter().enumerate() {
+                    let exp = Expect { version: *v, tables: idx.iter().map(|&i| pool[i].clone()).collect() };
+                    match fd.table_provider(k) {
+                        Ok(p) => ok &= check_provider(cx, rng, &p, &exp, "ttc/FontData", &wit),
+                        Err(e) => {
+                            cx.violation("rejected", "ttc:member-rejected", J::obj(vec![("member", J::U(k as u64)), ("error", J::s(format!("{:?}", e))), ("container", wit())]));
+                            ok = false;
+                        }
+                    }
+                }
+                // index beyond the end: error / absence, never another member's data
+                for beyond in [nmembers, nmembers + 1, nmembers + 1000, usize::MAX] {
+                    match fd.table_provider(beyond) {
+                        Err(_) => cx.class("ttc:index-beyond-end-rejected"),
+                        Ok(p) => {
+                            let any = pool.iter().any(|(t, _)| p.has_table(*t) || matches!(p.table_data(*t), Ok(Some(_))));
+                            if any || p.table_tags().map_or(false, |t| !t.is_empty()) {
+                                cx.violation("index-beyond-end", "ttc:index-beyond-end-has-data", J::obj(vec![("index", J::U(beyond as u64)), ("container", wit())]));
+                                ok = false;
+                            }
+                        }
+                    }
+                }
+                if ok {
+                    cx.class("ttc");
+                    if members.iter().any(|m| members.iter().filter(|n| n.1.iter().any(|i| m.1.contains(i))).count() > 1) {
+                        cx.class("ttc:shared-tables");
+                    }
+                }
+                if pool.iter().any(|t| !t.1.is_empty()) {
+                    cx.nontrivial(hash_bytes(&bytes));
+                }
+            }
+            _ => {
+                let wt: Vec<WoffTable> = tables
+                    .iter()
+                    .map(|(t, d)| WoffTable { tag: *t, data: d.clone(), compress: rng.chance(2, 3), level: *rng.pick(&[1u32, 6, 9]) })
+                    .collect();
+                let meta: Option<Vec<u8>> = if rng.chance(1, 3) { Some(format!("<metadata version=\"1.0\"><x>{}</x></metadata>", rng.u32()).into_bytes()) } else { None };
+                let private: Option<Vec<u8>> = if rng.chance(1, 4) {
+                    let n = rng.below(40);
+                    Some(rng.bytes(n))
+                } else {
+                    None
+                };
+                let sort_dir = !rng.chance(1, 5);
+                let (bytes, comp) = build_woff(version, &wt, meta.as_deref(), private.as_deref(), sort_dir);
+                let exp = Expect { version, tables };
+                let wit = || J::obj(vec![("kind", J::s("woff")), ("bytes_head", J::hex(&bytes[..bytes.len().min(44 + 20 * 6)])), ("len", J::U(bytes.len() as u64))]);
+                let fd = match ReadScope::new(&bytes).read::<FontData<'_>>() {
+                    Ok(f) => f,
+                    Err(e) => {
+                        cx.violation("rejected", "woff:rejected", J::obj(vec![("error", J::s(format!("{:?}", e))), ("container", wit())]));
+                        return;
+                    }
+                };
+                let mut ok = true;
+                for idx in [0usize, 3] {
+                    match fd.table_provider(idx) {
+                        Ok(p) => ok &= check_provider(cx, rng, &p, &exp, "woff/FontData", &wit),
+                        Err(e) => {
+                            cx.violation("rejected", "woff:provider-rejected", J::s(format!("{:?}", e)));
+                            ok = false;
+                        }
+                    }
+                }
+                if let Ok(w) = ReadScope::new(&bytes).read::<WoffFont<'_>>() {
+                    ok &= check_provider(cx, rng, &w, &exp, "woff/WoffFont", &wit);
+                    match (w.extended_metadata(), &meta) {
+                        (Ok(Some(s)), Some(m)) if s.as_bytes() == m.as_slice() => cx.class("woff:metadata"),
+                        (Ok(None), None) => {}
+                        (other, _) => {
+                            cx.violation("metadata", "woff:metadata", J::s(format!("extended_metadata = {:?} expected {:?}", other, meta.as_ref().map(|m| String::from_utf8_lossy(m).to_string()))));
+                            ok = false;
+                        }
+                    }
+                }
+                if ok {
+                    cx.class("woff");
+                    if comp.iter().any(|c| *c) {
+                        cx.class("woff:compressed-table");
+                    }
+                    if comp.iter().zip(wt.iter()).any(|(c, t)| !*c && t.compress) {
+                        cx.class("woff:compression-not-smaller-stored");
+                    }
+                    if comp.iter().any(|c| !*c) {
+                        cx.class("woff:stored-table");
+                    }
+                }
+                if ntables > 0 {
+                    cx.nontrivial(hash_bytes(&bytes));
+                }
+            }
+        }
+        if exp_empty(&used) {
+            cx.class("empty-table-set");
+        }
+        if cx.want_sample() {
+            cx.sample(J::obj(vec![("container", J::s(["sfnt", "ttc", "woff"][kind])), ("tables", J::U(ntables as u64)), ("version", J::s(format!("{:#x}", version)))]));
+        }
+    }
+}
+
+fn exp_empty(used: &[u32]) -> bool {
+    used.is_empty()
 }
